@@ -311,7 +311,7 @@ def mcAurocStat (c : McAurocCfg) (a : Args) : Except Err (List (List Q × Nat)) 
   let (i, tg) ← io a
   if !mcShapeOk i tg (some c.C) then throw .value
   let labs ← liftP (natsOf tg.data)
-  pure (i.rows.zip labs)
+  Fams.rowSamples (i.rows, labs)
 
 def mcAurocOut (c : McAurocCfg) (needData : Bool) (s : List (List Q × Nat)) : Except Err String := do
   mcAurocParamOk c
